@@ -406,6 +406,13 @@ func (r *run) client(j int, c Client) {
 	// recv reads one reply and checks that it is the client's own; want = 0 accepts any outstanding q
 	recv := func(want int) bool {
 		rep, err := co.ReadMsg()
+		// A connected UDP socket reports the ICMP "port unreachable" provoked by one of the
+		// client's own later datagrams (sent after the server had gone) on the next receive, ahead
+		// of replies that are already queued. That is the client's kernel, not the server: the
+		// error is consumed by reporting it, so read again.
+		for i := 0; err != nil && r.s.Transport == "realUDP" && strings.Contains(err.Error(), "connection refused") && i < 8; i++ {
+			rep, err = co.ReadMsg()
+		}
 		if err != nil {
 			r.log.Addf("client(%d).recverr(%d)", j, want)
 			return false
